@@ -178,6 +178,18 @@ func (e *hmacEngine) session(tk *verifrt.Task, sha256v bool) {
 		}
 	}
 	ref := newRef()
+	// digests returned by Sum belong to the caller (as with crypto/hmac): they are
+	// looked at again after the object went on to do other things
+	type keptSum struct{ got, want []byte }
+	var kept []keptSum
+	recheck := func(when string) {
+		for i, k := range kept {
+			if !bytes.Equal(k.got, k.want) {
+				e.fail("digest-changed-after-return", "%s: the slice returned by Sum #%d of this session (HMAC-%s, key %d bytes) no longer holds the digest %s: now %x, was %x", tk.Name, i, name, len(key), when, k.got, k.want)
+				return
+			}
+		}
+	}
 	rounds := 1 + r.Choose(3, "rounds")
 	for round := 0; round < rounds; round++ {
 		chunks := e.drawChunks()
@@ -203,6 +215,8 @@ func (e *hmacEngine) session(tk *verifrt.Task, sha256v bool) {
 			e.desc = append(e.desc, fmt.Sprintf("%s:write(%d in %d)+sum", tk.Name, tot, len(chunks)))
 			if !bytes.Equal(got, want) {
 				e.fail("digest-mismatch", "%s: HMAC-%s over key of %d bytes and %d message bytes (round %d, sum %d): pooled object gave %x, crypto/hmac gives %x", tk.Name, name, len(key), tot, round, i, got, want)
+			} else {
+				kept = append(kept, keptSum{got, want})
 			}
 		}
 		if h.Size() != ref.Size() || h.BlockSize() != ref.BlockSize() {
@@ -229,6 +243,9 @@ func (e *hmacEngine) session(tk *verifrt.Task, sha256v bool) {
 	}
 	e.desc = append(e.desc, tk.Name+":put")
 	r.Logf("%s put", tk.Name)
+	recheck("after later use of the object")
+	verifrt.Yield(hsCaller)
+	recheck("after the object was put back")
 }
 
 // integrity goes through the production call path MessageIntegrity.AddTo /
